@@ -59,7 +59,15 @@ def placement_ok(ty, m, n, as_, ae, rs, re):
     )[ty]
 
 
-def check_match(ty, adapter, read, mt, before):
+def doc_min_overlap(cfg, seq_len):
+    """the minimum overlap as documented, from the *requested* parameters (not from the adapter object, which a defect may have left
+    un-normalised): the whole adapter for anchored types, otherwise the requested value but never more than the adapter is long"""
+    if cfg["ty"] in ("prefix", "suffix"):
+        return seq_len
+    return min(cfg["min_overlap"], seq_len)
+
+
+def check_match(ty, adapter, read, mt, before, min_overlap=None):
     """C01 for one reported match. `adapter` is the real adapter object (for its normalised parameters).
     Returns list of problem strings."""
     seq = adapter.sequence
@@ -70,7 +78,7 @@ def check_match(ty, adapter, read, mt, before):
         return ["bounds"]
     if not placement_ok(ty, m, n, mt.astart, mt.astop, mt.rstart, mt.rstop):
         probs.append("placement")
-    if mt.astop - mt.astart < adapter.min_overlap:
+    if mt.astop - mt.astart < (adapter.min_overlap if min_overlap is None else min_overlap):
         probs.append("overlap")
     A, R = seq[mt.astart:mt.astop], read[mt.rstart:mt.rstop]
     eq = lambda a, r: doc_match(a, r, aw, rw)  # noqa
@@ -102,14 +110,14 @@ def placements(ty, m, n):
                         yield as_, ae, rs, re
 
 
-def admissible_occurrence(ty, adapter, read, exact_only):
+def admissible_occurrence(ty, adapter, read, exact_only, min_overlap=None):
     """first admissible occurrence (as, ae, rs, re, d) or None; brute force over all placements"""
     seq = adapter.sequence
     m, n = len(seq), len(read)
     aw, rw, indels = adapter.adapter_wildcards, adapter.read_wildcards, adapter.indels
     eq = lambda a, r: doc_match(a, r, aw, rw)  # noqa
     for as_, ae, rs, re in placements(ty, m, n):
-        if ae - as_ < adapter.min_overlap:
+        if ae - as_ < (adapter.min_overlap if min_overlap is None else min_overlap):
             continue
         A, R = seq[as_:ae], read[rs:re]
         if not indels:
